@@ -45,20 +45,26 @@ PROPS["C12"] = {
 _FMT_COMMON = {
     "shards": {"quick": 16, "thorough": 16},
     "needs_cli": True,
+    # crash journal without restart: the real wasm driver's error paths abort a native process, so a death inside it is
+    # attributed to the source that was being formatted and reported as a violation
+    "journal": "norestart",
     "probe_opts": {"quick": {"cli": _CLI}, "thorough": {"cli": _CLI}},
 }
 
 PROPS["C07"] = dict(_FMT_COMMON, **{
     "rule": ("every two-level tree shape (parent kind/position x child kind, all 26 operators) printed fully parenthesised, parsed, formatted at each width and re-parsed: "
              "the AST must be identical; plus hand-written programs forcing each multi-line layout at 16 widths, operator triples (thorough), random programs with comments and "
-             "blank lines through the mirrored library driver and the real `blots --format`, and evaluation equivalence of source vs formatted source; "
+             "blank lines through the library driver and the real `blots --format`, and evaluation equivalence of source vs formatted source; the same shapes with "
+             "one identifier leaf replaced by a string literal that spans lines / holds a carriage return / looks like a comment. The library driver is the REAL blots-wasm "
+             "format_blots: its source file is compiled into the harness and hook H6 hands out the result text before the wasm-bindgen hand-over (which aborts a native process). "
              "non-trivial = the formatted text differs from the input text; distinct by (source, width)"),
     "exhaustive_subspaces": ["two-level parent x child x position shapes x width set"],
     "min_nontrivial": {"quick": 2000, "thorough": 2000},
-    "assumptions": ["blots-wasm::format_blots cannot be executed natively; its statement loop is mirrored in the harness around the real format_expr / join_statements_with_spacing"],
+    "assumptions": ["blots-wasm::format_blots runs natively only on sources its mirror in the harness formats without error (its error paths end in wasm-bindgen stubs that abort); "
+                    "errors of the driver are therefore judged on the mirror"],
 })
 PROPS["C08"] = dict(_FMT_COMMON, **{
-    "rule": ("same workload as C07 (shapes, layout programs, random programs with comments and 0-5 blank lines); format twice through format_expr, the mirrored library driver and "
+    "rule": ("same workload as C07 (shapes, layout programs, random programs with comments and 0-5 blank lines); format twice through format_expr, the real blots-wasm driver and "
              "`blots --format`; the second pass must return the first unchanged. Cases whose first pass does not re-parse to the same program are C07 hits and skipped here. "
              "non-trivial = first pass changed the text"),
     "min_nontrivial": {"quick": 2000, "thorough": 2000},
@@ -197,12 +203,17 @@ PROPS["C03"] = {
              "I1 every earlier name still bound to the identical, unchanged value; I2 new names only among the statement's syntactic top-level targets (nothing leaks from do-blocks, "
              "calls, callbacks, failed statements); I3 keywords / built-ins / inputs / constants never become keys and inputs keeps its value; I4 a statement whose outermost target is "
              "bound fails and changes nothing; I5 reading through the name gives the snapshot; I6 shadowing locals / parameters have their own value inside; plus heap-cell "
-             "immutability and the H3 get_mut log. Workload: ALL sequences of length <= 4 (quick) / <= 5 (thorough) over a 35-statement alphabet (bind, rebind, alias, closures, "
+             "immutability, the H3 get_mut log, H5 (the top-level scope never has a binding replaced, not even inside one statement) and I7 (calling a bound function with fixed "
+             "arguments gives the same outcome after every later statement that bound none of its free names). A sample of the sessions is replayed through the REAL interactive REPL "
+             "of the CLI on a pseudo-terminal (statement status, final outputs object, no leaked names). Workload: ALL sequences of length <= 4 (quick) / <= 5 (thorough) over a "
+             "50-statement alphabet and of length <= 3 over its six value variants (null, false, 0, empty string / list / record for every bound literal) (bind, rebind, alias, closures, "
              "nested assignment in operand / list / record / conditional, do-block and parameter shadowing, callbacks, output forms, failing statements of every kind), sampled longer "
              "sequences, and random sessions of 20-200 statements on 6 names. non-trivial = a bound name is mentioned by a later statement"),
     "exhaustive": True,
-    "exhaustive_subspaces": ["statement sequences of length <= 4 (quick) / <= 5 (thorough) over the 35-template alphabet"],
+    "exhaustive_subspaces": ["statement sequences of length <= 4 (quick) / <= 5 (thorough) over the 50-template alphabet", "sequences of length <= 3 over each of 6 value variants of the alphabet"],
     "min_nontrivial": {"quick": 100000, "thorough": 100000},
+    "needs_cli": True,
+    "offline": _lazy("c03"),
     "assumptions": ["`inf` / `infinity` are special-cased identifiers that are neither keywords nor constants; they are kept out of the name set (no claim either way)"],
 }
 
